@@ -307,6 +307,7 @@ structure RolesCore (s : St) : Prop where
   uniq : Uniq s
   prop : ∀ r ∈ s.ras, ∀ a, r.proposer = some a → BondedOf s r.id a
   succ : ∀ r ∈ s.ras, ∀ a, r.successor = some a → BondedOf s r.id a
+  succFresh : ∀ r ∈ s.ras, ∀ a, r.successor = some a → ∀ q, getSeq s a = some q → q.notice = none
   ne : ∀ r ∈ s.ras, ∀ a, r.proposer = some a → r.successor ≠ some a
   optOut : ∀ q ∈ s.seqs, q.notice.isSome = true → q.optedIn = false
   nq : ∀ t a, (t, a) ∈ s.nq → ∃ q r, getSeq s a = some q ∧ q.notice = some t ∧ getRa s q.rollapp = some r ∧ r.proposer = some a
@@ -338,6 +339,13 @@ theorem RolesCore.frame {s s' : St} (h : RolesCore s) (f : Frame s s') : RolesCo
     simp only [rkey, Prod.mk.injEq] at e
     rw [← e.1]
     exact (h.succ r hr a (e.2.2.trans ha)).frame f
+  · intro r' hr' a ha q' hq'
+    obtain ⟨r, hr, e⟩ := mem_key_congr rkey f.ras hr'
+    simp only [rkey, Prod.mk.injEq] at e
+    obtain ⟨q, hq, _⟩ := h.succ r hr a (e.2.2.trans ha)
+    obtain ⟨q'', hq'', _, _, _, e4⟩ := f.sq_some hq
+    rw [hq'] at hq''; injection hq'' with hq''; subst hq''
+    rw [e4]; exact h.succFresh r hr a (e.2.2.trans ha) q hq
   · intro r' hr' a ha
     obtain ⟨r, hr, e⟩ := mem_key_congr rkey f.ras hr'
     simp only [rkey, Prod.mk.injEq] at e
